@@ -102,6 +102,23 @@ AllPartTris(t) == FlattenSeq([i \in 1..Len(t.parts) |-> CanonSeq(TrueTrisOf(t, t
 UsedVerts(T) == UNION {{T[k][1], T[k][2], T[k][3]} : k \in 1..Len(T)}
 VertexWeightSum(t, v) == FoldLeft(LAMBDA a, b : a + b, 0,
                             [b \in 1..Len(t.weights) |-> FoldLeft(LAMBDA a, e : IF e[1] = v THEN a + e[2] ELSE a, 0, t.weights[b])])
+AbsI(x) == IF x < 0 THEN -x ELSE x
+WeightOf(t, b, v) == FoldLeft(LAMBDA a, e : IF e[1] = v THEN a + e[2] ELSE a, 0, t.weights[b])
+\* what a partition says about one of its vertices (bone of the shape's list -> weight) against what the shape says:
+\* BSTriShape vertex records, else NiSkinData (vertices with more than four influences keep the strongest four,
+\* renormalised: not compared)
+PartW(p, j, b) == FoldLeft(LAMBDA a, c : IF p.pw[j][c] > 0 /\ p.bi[j][c] < Len(p.bones) /\ p.bones[p.bi[j][c] + 1] = b THEN a + p.pw[j][c] ELSE a, 0, <<1, 2, 3, 4>>)
+PartBones(p, j) == {p.bones[p.bi[j][c] + 1] : c \in {c \in 1..4 : p.pw[j][c] > 0 /\ p.bi[j][c] < Len(p.bones)}}
+RecW(t, v, b) == FoldLeft(LAMBDA a, c : IF t.vweights[v + 1][c][2] > 0 /\ t.vweights[v + 1][c][1] = b THEN a + t.vweights[v + 1][c][2] ELSE a, 0, <<1, 2, 3, 4>>)
+RecBones(t, v) == {t.vweights[v + 1][c][1] : c \in {c \in 1..4 : t.vweights[v + 1][c][2] > 0}}
+DataBones(t, v) == {b \in 0..(Len(t.weights) - 1) : \E k \in 1..Len(t.weights[b + 1]) : t.weights[b + 1][k][1] = v /\ t.weights[b + 1][k][2] > 0}
+PartVertexOK(t, p, j) ==
+    LET v == p.vmap[j] IN
+    IF p.pw[j][1] + p.pw[j][2] + p.pw[j][3] + p.pw[j][4] = 0 THEN TRUE     \* (the partition carries no weights for this vertex)
+    ELSE IF Len(t.vweights) = t.nv /\ t.nv > 0
+    THEN \A b \in PartBones(p, j) \cup RecBones(t, v) : AbsI(PartW(p, j, b) - RecW(t, v, b)) <= 3
+    ELSE IF t.nv > 400 \/ Len(t.weights) = 0 \/ Cardinality(DataBones(t, v)) > 4 THEN TRUE
+    ELSE \A b \in PartBones(p, j) \cup DataBones(t, v) : AbsI(PartW(p, j, b) - WeightOf(t, b + 1, v)) <= 3
 PartitionViol(t, boneLimit) ==
     (IF PartsIndexViol(t) # {} THEN PartsIndexViol(t)
           ELSE V(BagEq(AllPartTris(t), CanonSeq(t.tris)), "EveryTriangleInExactlyOnePartition")
@@ -123,6 +140,9 @@ PartitionViol(t, boneLimit) ==
                           (\A c \in 1..4 : w[c] >= 0) /\ (sm = 0 \/ (sm >= 990 /\ sm <= 1010)), "PartitionVertexWeightsNormalised")
                \cup V(\A k \in 1..Len(t.vweights) : \A c \in 1..4 :
                           t.vweights[k][c][2] >= 0 /\ (t.vweights[k][c][2] = 0 \/ t.vweights[k][c][1] < Len(t.bones)), "VertexBoneSlotsExist")
+               \cup V(\A i \in 1..Len(t.parts) : LET p == t.parts[i] IN
+                          (Len(p.bi) = 0 \/ Len(p.pw) # Len(p.bi) \/ Len(p.vmap) # Len(p.bi)) \/ \A j \in 1..Len(p.bi) : PartVertexOK(t, p, j),
+                      "PartitionVertexWeightsAreTheShapes")
                \cup V(~t.isDismember \/ Len(t.dismember) = Len(t.parts), "DismemberListAligned"))
 
 (* ---------------- C17: segmentation labels ---------------- *)
@@ -168,10 +188,8 @@ SetGetViol(s, attr, given, t) ==
 SameAfterReloadViol(t, r) == V(r.nv = t.nv /\ r.acid = t.acid, "ReloadSameVertexData") \cup V(r.tris = t.tris, "ReloadSameTriangles")
 
 (* ---------------- C12: LE <-> SE conversion, per shape ---------------- *)
-AbsI(x) == IF x < 0 THEN -x ELSE x
 CloseSeqs(a, b, slack) == Len(a) = Len(b) /\ \A k \in 1..Len(a) : \A c \in 1..Len(a[k]) : AbsI(a[k][c] - b[k][c]) <= slack
 \* weights of vertex v as a function bone name -> w (1/1000), zero entries dropped
-WeightOf(t, b, v) == FoldLeft(LAMBDA a, e : IF e[1] = v THEN a + e[2] ELSE a, 0, t.weights[b])
 WeightsClose(s, t, slack) ==
     Len(s.weights) = Len(t.weights) /\
     \A b \in 1..Len(s.weights) :
